@@ -394,7 +394,15 @@ pub fn run(sink: &mut Sink, rng: &mut Rng, thorough: bool) {
   // NUNIQ encoding (space only)
   for k in 0..(if thorough { 5000 } else { 100 }) {
     let d = if k % 3 == 0 { rng.below(30) as u8 } else { rng.below(5) as u8 };
-    let l = if k % 10 == 0 { vec![] } else { random_moc_ranges::<u64, Hpx<u64>>(rng, d, 6) };
+    let mut l = if k % 10 == 0 { vec![] } else { random_moc_ranges::<u64, Hpx<u64>>(rng, d, 6) };
+    if k % 5 == 1 {
+      // the smallest NUNIQ codes: base cell 0 WHOLE (code 4), or the first cell of the depth (code 4 * 4^d)
+      let b0 = 1u64 << 58;
+      let first = if rng.chance(1, 2) { 0..b0 } else { 0..(1u64 << (2 * (29 - d as u32))) };
+      l.retain(|r| r.start > first.end);
+      l.insert(0, first);
+      sink.count("direct:fits-nuniq-smallest-codes");
+    }
     let m: RangeMOC<u64, Hpx<u64>> = mk_moc(d, &l);
     let mut buf = Vec::new();
     let res = (&m).into_range_moc_iter().cells().hpx_cells_to_fits_ivoa(None, None, &mut buf);
@@ -473,6 +481,19 @@ pub fn run_c12(sink: &mut Sink, rng: &mut Rng, thorough: bool) {
   all(sink, rng, thorough, true);
   json_overlaps(sink, rng, thorough);
   other_readers(sink, rng, thorough);
+  // documents whose depths DECREASE, with an index that exists at the deeper depth only (and at the boundary)
+  for (q, w, n0, dim) in [("hpx", 32u32, 12u64, 2u32), ("time", 32, 2, 1), ("freq", 32, 2, 1)] {
+    for (d1, d2) in [(2u32, 1u32), (3, 0), (5, 2), (1, 0)] {
+      let (n1, n2) = (n0 << (dim * d1), n0 << (dim * d2));
+      for i2 in [n2 - 1, n2, n2 + 1, n1 - 1] {
+        for doc in [format!("{}/1 {}/{}", d1, d2, i2), format!("{}/ {}/{}", d1, d2, i2), format!("{}/{}-{} {}/0", d2, i2.saturating_sub(1), i2, d1)] {
+          let ans = match q { "hpx" => dec_ascii::<u32, Hpx<u32>>(&doc), "time" => dec_ascii::<u32, Time<u32>>(&doc), _ => dec_ascii::<u32, Frequency<u32>>(&doc) };
+          sink.count("ascii:decreasing-depths");
+          sink.emit(&format!("ascii_dec {} {} {}", q, w, hex(doc.as_bytes())), &ans, true);
+        }
+      }
+    }
+  }
   // random bytes
   for _ in 0..(if thorough { 20000 } else { 500 }) {
     let n = rng.below(40) as usize;
